@@ -15,7 +15,7 @@ import ast
 
 from ..core import AnalysisError, Unfoldable, norm, loc, walk_no_nested, attr_chain, kwarg, call_name
 from ..codecs import check_dict_codecs
-from ..normalize import inline, builders, comp_builder, local_env, expand, canon, conjuncts, _enclosing
+from ..normalize import unroll_const_loops, inline, builders, comp_builder, local_env, expand, canon, conjuncts, _enclosing
 from ..core import func_params
 from ..cfg import CFG
 from .. import flow
@@ -108,6 +108,9 @@ def collect_writer_rows(prog, apg, fname, seen=None):
     fn = apg.methods.get(fname)
     if fn is None:
         raise AnalysisError(f'anchor writer {fname} vanished')
+    # a writer driven by a class-level table of (attribute, property, encoder) rows is read row by row
+    fn = inline(prog, apg, unroll_const_loops(prog, apg, fn), exclude=tuple(n_ for n_ in apg.methods if n_.endswith('_to_graph_properties_dict')))
+    wenv_ = {k_: v_ for k_, v_ in local_env(fn).items() if isinstance(v_, (ast.Name, ast.Attribute))}
     var = fn.args.args[0].arg if fn.args.args else 'sliver'
     rows = []
     # the dictionary being filled: whatever local the writer returns
@@ -118,7 +121,8 @@ def collect_writer_rows(prog, apg, fname, seen=None):
             consts = prop_consts_in(prog, n.targets[0].slice, apg.module, apg)
             if len(consts) != 1:
                 raise AnalysisError(f'{apg.module.relpath}:{n.lineno}: writer row key is not one property constant')
-            rows.append({'prop': consts[0], 'attrs': sliver_attrs_in(n.value, var), 'enc': encoder_kind(n.value, var),
+            val_ = expand(n.value, wenv_)
+            rows.append({'prop': consts[0], 'attrs': sliver_attrs_in(val_, var), 'enc': encoder_kind(val_, var),
                          'node': n, 'fn': fname})
         elif isinstance(n, ast.Call):
             ch = attr_chain(n.func)
@@ -491,20 +495,21 @@ def run(prog, rep):
     # silently resets that property on every unrelated set_property()
     rep.rule('R11', 'every writer row is guarded by "the attribute is set" (no row from a constructor default)', floor=30)
     for wname in sorted(n_ for n_ in apg.methods if n_.endswith('_sliver_to_graph_properties_dict')):
-        wfn = apg.methods[wname]
+        wfn = inline(prog, apg, unroll_const_loops(prog, apg, apg.methods[wname]), exclude=tuple(n_ for n_ in apg.methods if n_.endswith('_to_graph_properties_dict')))
+        renv_ = {k_: v_ for k_, v_ in local_env(wfn).items() if isinstance(v_, (ast.Name, ast.Attribute))}
         svar = wfn.args.args[0].arg if wfn.args.args else None
         dn_ = {r.value.id for r in walk_no_nested(wfn) if isinstance(r, ast.Return) and isinstance(r.value, ast.Name)}
         for a in walk_no_nested(wfn):
             if not (isinstance(a, ast.Assign) and len(a.targets) == 1 and isinstance(a.targets[0], ast.Subscript) and
                     isinstance(a.targets[0].value, ast.Name) and a.targets[0].value.id in dn_):
                 continue
-            attrs_ = sorted({x.attr for x in ast.walk(a.value) if isinstance(x, ast.Attribute) and isinstance(x.value, ast.Name) and x.value.id == svar})
+            attrs_ = sorted({x.attr for x in ast.walk(expand(a.value, renv_)) if isinstance(x, ast.Attribute) and isinstance(x.value, ast.Name) and x.value.id == svar})
             if not attrs_:
                 continue
             _, cs_ = _enclosing(a, wfn)
             guarded = False
             for c_ in cs_:
-                for cj in conjuncts(canon(c_)):
+                for cj in conjuncts(canon(expand(c_, renv_))):
                     if isinstance(cj, ast.Call) and call_name(cj) == 'hasattr':
                         continue
                     if any(isinstance(x, ast.Attribute) and isinstance(x.value, ast.Name) and x.value.id == svar and x.attr in attrs_ for x in ast.walk(cj)):
@@ -573,6 +578,7 @@ def run(prog, rep):
     s2d = apg.methods.get('sliver_to_dict')
     if s2d is None:
         raise AnalysisError('sliver_to_dict vanished')
+    s2d = inline(prog, apg, s2d)
     written = {}   # sliver class name -> set(keys)
     rets = [r.value.id for r in walk_no_nested(s2d) if isinstance(r, ast.Return) and isinstance(r.value, ast.Name)]
     if not rets:
@@ -693,11 +699,26 @@ def check_deep_writers(prog, rep, rule):
         env = local_env(fn)
         params = func_params(fn)
         for c in walk_no_nested(fn):
-            if not (isinstance(c, ast.Call) and call_name(c) in writers and call_name(c) != name):
+            if not (isinstance(c, ast.Call) and call_name(c) in writers and isinstance(c.func, ast.Attribute)):
                 continue
             gens, conds = _enclosing(c, fn)
             sliver_params = [p for p in params if p not in ('self', 'parent_node_id')]
             rep.instance(rule, f'{name} -> {call_name(c)} under {[norm(x, 50) for x in conds]}')
+            # the children hang off the element just written: the parent handed to the nested writer is the id of this writer's
+            # own sliver, not the id this writer was given for ITS parent
+            callee_params = [p for p in func_params(writers[call_name(c)]) if p != 'self']
+            pidx = callee_params.index('parent_node_id') if 'parent_node_id' in callee_params else None
+            parg = kwarg(c, 'parent_node_id')
+            if parg is None and pidx is not None and len(c.args) > pidx:
+                parg = c.args[pidx]
+            if parg is not None:
+                pe = expand(parg, env)
+                own = isinstance(pe, ast.Attribute) and pe.attr == 'node_id' and isinstance(pe.value, ast.Name) and pe.value.id in sliver_params
+                if not own:
+                    rep.violation(rule, loc(apg.module, c), f'ABCPropertyGraph.{name}', f'{call_name(c)} with parent {norm(parg, 50)}',
+                                  f'{name} hangs the children of the sliver under "{norm(parg, 50)}" instead of under the node it has just '
+                                  f'written for the sliver itself (<sliver>.node_id): the children end up attached to the wrong element '
+                                  f'and the element read back from the graph has none')
             for cond in conds:
                 if getattr(cond, '_guard', None) == 'Raise':
                     continue        # a rejection: nothing at all is stored when it fails
